@@ -115,10 +115,15 @@ func zzC12WriteOutput(c *template.Config, data interface{}, output string) error
 			e.writes++
 			return nil
 		}
-		var lines []string
-		for id, b := range e.inst.config.Backends().Items() {
+		// the template renders the backends sorted by name
+		var lines, ids []string
+		for id := range e.inst.config.Backends().Items() {
+			ids = append(ids, id)
+		}
+		sort.Strings(ids)
+		for _, id := range ids {
 			lines = append(lines, "backend "+id)
-			for _, ep := range b.Endpoints {
+			for _, ep := range e.inst.config.Backends().Items()[id].Endpoints {
 				lines = append(lines, "server "+ep.Name+" "+ep.IP)
 			}
 		}
@@ -345,6 +350,13 @@ func VerifC12_FileFault() {
 		// the retry: nothing new in the batch, no fault; afterwards every file is what the
 		// fault-free twin wrote and a reload was asked for after they were written
 		before := a.reload.requests
+		if (change == 0 || change == 3) && nd.Bool("retry.reparses.d1") {
+			// the retry may be the next event instead of the scheduled one: something
+			// unrelated is parsed again without effectively changing
+			a.inst.config.Backends().RemoveAll([]string{"d1_app_8080"})
+			a.inst.config.Hosts().RemoveAll([]string{"d1.local"})
+			a.addApp("d1", "10.0.0.1")
+		}
 		errR := a.inst.HAProxyUpdate(utils.NewTimer(nil))
 		nd.Assert(errR == nil, "retry-succeeds")
 		// every file of the twin exists with the same content; a file the twin never wrote (the
